@@ -352,6 +352,9 @@ class StridedInterval:
             )
 
             b_lower_bound = self._modular_add(a_upper_bound, self.stride, self.bits)
+            if b_lower_bound > self.upper_bound:
+                # the next value after the last one before the pole is already past the upper bound
+                return [a]
             b = StridedInterval(
                 bits=self.bits,
                 stride=self.stride,
@@ -388,7 +391,10 @@ class StridedInterval:
                 straddling = True
 
         if straddling:
-            a_upper_bound = north_pole_left - ((north_pole_left - self.lower_bound) % self.stride)
+            # the lower bound may lie past the north pole (an interval that wraps around the south pole first), so
+            # the distance to the pole is taken on the circle
+            dist = self._modular_sub(north_pole_left, self.lower_bound, self.bits)
+            a_upper_bound = self._modular_sub(north_pole_left, dist % self.stride, self.bits)
             a = StridedInterval(
                 bits=self.bits,
                 stride=self.stride,
@@ -397,7 +403,10 @@ class StridedInterval:
                 uninitialized=self.uninitialized,
             )
 
-            b_lower_bound = a_upper_bound + self.stride
+            if dist - dist % self.stride + self.stride > self._modular_sub(self.upper_bound, self.lower_bound, self.bits):
+                # the next value after the last one before the pole is already past the upper bound
+                return [a]
+            b_lower_bound = self._modular_add(a_upper_bound, self.stride, self.bits)
             b = StridedInterval(
                 bits=self.bits,
                 stride=self.stride,
